@@ -116,10 +116,14 @@ func H_C10_unbind() {
 	var handled []int
 	unbinds := 0
 	answers := vBool("handlersAnswer")
+	firstPanics := vBool("firstHandlerPanics") // recovered by gldap; the connection carries on
 	hf := func(w *ResponseWriter, r *Request) {
 		mu.Lock()
 		handled = append(handled, r.ID)
 		mu.Unlock()
+		if firstPanics && r.ID == 1 {
+			panic("handler panic")
+		}
 		if answers {
 			_ = w.Write(r.NewResponse(WithResponseCode(ResultSuccess)))
 		}
@@ -180,6 +184,9 @@ func H_C10_unbind() {
 	wantWrites := 0
 	if answers && !writesFail {
 		wantWrites = len(handled)
+		if firstPanics && pos >= 1 {
+			wantWrites-- // the panicking handler did not answer
+		}
 	}
 	vAssert(vConnWrites(nc) == wantWrites, "gldap sends no response to Unbind (only the handlers' answers are written)")
 	vAssertE(vConnFramesRead(nc) == pos+1, "no frame is read after the Unbind")
@@ -262,7 +269,7 @@ func H_C13_starttls() {
 		got = append(got, rec{r.ID, vConnLayer(r.conn.reader), vConnLayer(r.conn.writer), vConnLayer(w.writer)})
 		// numbering and connection identity carry on across the upgrade
 		vAssertE(int64(r.ID) == r.message.GetID(), "requests are numbered in arrival order, before and after the upgrade")
-		vAssertE(r.ConnectionID() == 7 && w.connID == 7, "the connection keeps its ID across the upgrade")
+		vAssertE(r.ConnectionID() == 7 && int(w.connID) == 7, "the connection keeps its ID across the upgrade")
 		werr := w.Write(r.NewResponse(WithResponseCode(ResultSuccess)))
 		// whatever time has passed since the upgrade (no write timeout is configured)
 		vAssertE(werr == nil, "requests before and after the upgrade are answered as on a plain connection")
@@ -324,7 +331,7 @@ func H_C13_starttls() {
 	_ = c.serveRequests()
 	c.requestsWg.Wait()
 	vAssertE(!inHandler, "handler finished")
-	vAssertE(c.connID == 7, "the connection's ID is unchanged at the end")
+	vAssertE(int(c.connID) == 7, "the connection's ID is unchanged at the end")
 	vAssertE(framesAtStart == pos+1 && framesAtEnd == pos+1, "no frame is read while the StartTLS handler runs")
 	vAssertE((startErr == nil) == tlsOK, "StartTLS succeeds iff the handshake does")
 	if tlsOK {
@@ -347,7 +354,45 @@ func H_C13_starttls() {
 	vReach("starttls")
 }
 
-func init() { vReg("H_C06_blockedwriter", H_C06_blockedwriter) }
+func init() {
+	vReg("H_C06_blockedwriter", H_C06_blockedwriter)
+	vReg("H_C06_manyblocked", H_C06_manyblocked)
+}
+
+// C06 at the upper end of the quantifier: a pipeline of 130 or 257 requests whose handlers
+// all block until the last one has started — every request is handed to its handler.
+func H_C06_manyblocked() {
+	N := []int{130, 257}[vLen("pipeline", 1)]
+	m := vMux()
+	g := vGate("release")
+	var mu sync.Mutex
+	started := 0
+	seen := map[int]bool{}
+	hf := func(w *ResponseWriter, r *Request) {
+		mu.Lock()
+		started++
+		seen[r.ID] = true
+		mu.Unlock()
+		vGateWait(g)
+	}
+	vAssume(m.Delete(hf) == nil && m.DefaultRoute(hf) == nil)
+	nc := vNetConn("c")
+	for i := 0; i < N; i++ {
+		vConnFeed(nc, vWire(refEnvelope(int64(i+1), refDeleteOp(), nil)))
+	}
+	vConnFeedBlock(nc)
+	c, err := newConn(context.Background(), 1, nc, vLogger(), m)
+	vAssume(err == nil)
+	go func() { _ = c.serveRequests() }()
+	vQuiesce()
+	mu.Lock()
+	vAssertE(started == N && len(seen) == N, "every request of the pipeline was handed to its handler although all earlier handlers are still blocked")
+	mu.Unlock()
+	vGateOpen(g)
+	_ = nc.Close()
+	vQuiesce()
+	vReach("many blocked")
+}
 
 // C06: a handler blocked in Write (client not reading) delays neither the
 // dispatch of later requests on the same connection nor another connection.
@@ -543,7 +588,7 @@ func H_C05_bigframes() {
 	c, err := newConn(context.Background(), 7, nc, vLogger(), vMux())
 	vAssume(err == nil)
 	r := &Request{ID: 1, conn: c, message: &SimpleBindMessage{baseMessage: baseMessage{id: 5}}}
-	w, err := newResponseWriter(c.writer, &c.writerMu, c.logger, c.connID, 1)
+	w, err := newResponseWriter(c.writer, &c.writerMu, c.logger, int(c.connID), 1)
 	vAssume(err == nil)
 	sink := func() string { return string(vConnWritten(nc)) }
 	sizes := []int{100, 4095, 4096, 4097, 16383, 16384, 16385, 20000, 65537, 70000}
@@ -598,7 +643,7 @@ func H_C09_step() {
 	if err != nil || c == nil {
 		return
 	}
-	vAssert(c.connID == n, "the connection stores the id it was given")
+	vAssert(int(c.connID) == n, "the connection stores the id it was given")
 	vSummarise("encodeInteger")
 	r, err := newRequest(k, c, &packet{Packet: vFrame("f", 1)})
 	vAssert(err == nil && r != nil, "request built")
@@ -607,7 +652,7 @@ func H_C09_step() {
 	}
 	vAssert(r.ConnectionID() == n, "every request of the connection reports the connection's id, whatever its request number")
 	vAssert(r.ID == k, "request number kept")
-	w, err := newResponseWriter(c.writer, &c.writerMu, c.logger, c.connID, k)
-	vAssert(err == nil && w.connID == n, "response writer carries the same connection id")
+	w, err := newResponseWriter(c.writer, &c.writerMu, c.logger, int(c.connID), k)
+	vAssert(err == nil && int(w.connID) == n, "response writer carries the same connection id")
 	vReach("step")
 }
